@@ -289,6 +289,9 @@ def run(c, chk):
         def floor(self, *a, **kw):
             return None
     c07.parser_ownership(c, OnlyDangling(chk, {}))
+    chk.rule('R2.8', 'replacing or removing a section never releases the search path it only borrows from the root (use after free on the next include)')
+    ex28 = sym.Explorer(c.modules, max_visits=2, mod_sets=c.mod_sets, max_paths=200000)
+    c07.searchpath_rule(c, c08.chk_proxy(chk, {'R7.3': 'R2.8'}), ex28)
 
 
 # ----------------------------------------------------------------------------
